@@ -42,9 +42,33 @@ def rm(*paths):
 # ------------------------------------------------------------------ strategies
 
 UNKNOWN_TITLES = ["a", "b2", "my_col", "X", "zeta", "p.q", "q-r", "t[0]", "intensity%", "u:v"]
-KNOWN_TITLES = ["sc", "fc", "omega", "Number_of_pixels", "sum_intensity", "spot3d_id", "h", "k", "l",
-                "gx", "tth", "eta", "U11", "UBI23", "eps11", "eps23_s", "e11e12", "labels", "drlv2", "IMax_f",
-                "sum_intensity^2", "sig12"]
+# The print formats documented for the named columns (columnfile module header: positions and angles 4 decimals,
+# integer-valued columns none, orientation matrix elements 12 decimals, strain/stress tensor elements and their
+# covariances 4 significant decimals in exponent form; anything else "%f").  Written out here independently of the
+# library's table so that a title dropping out of that table is seen.
+DOC_FLOATS = ["fc", "sc", "omega", "f_raw", "s_raw", "sigf", "sigs", "covsf", "sigo", "covso", "covfo", "sum_intensity",
+              "sum_intensity^2", "IMax_int", "IMax_o", "avg_intensity", "Min_o", "Max_o", "dety", "detz", "gx", "gy",
+              "gz", "hr", "kr", "zr", "xl", "yl", "zl", "drlv2", "tth", "eta", "tth_hist_prob"]
+DOC_INTS = ["Number_of_pixels", "IMax_f", "IMax_s", "Min_f", "Max_f", "Min_s", "Max_s", "spot3d_id", "spot4d_id", "h",
+            "k", "l", "onfirst", "onlast", "labels", "Grain", "grainno", "grain_id", "IKEY", "npk2d"]
+_IJ = ["%d%d" % (i, j) for i in (1, 2, 3) for j in (1, 2, 3)]
+_SYM = ["11", "22", "33", "23", "13", "12"]
+DOC_FORMATS = {}
+for _t in DOC_FLOATS:
+    DOC_FORMATS[_t] = "%.4f"
+for _t in DOC_INTS:
+    DOC_FORMATS[_t] = "%.0f"
+for _v in _IJ:
+    DOC_FORMATS["U" + _v] = "%.12f"
+    DOC_FORMATS["UBI" + _v] = "%.12f"
+for _v in _SYM:
+    for _h, _e in (("eps", ""), ("eps", "_s"), ("sig", ""), ("sig", "_s")):
+        DOC_FORMATS[_h + _v + _e] = "%.4e"
+for _a in range(6):
+    for _b in range(_a, 6):                     # variances (a == b) and covariances of the six tensor elements
+        for _h, _e in (("e", ""), ("e", "_s"), ("s", ""), ("s", "_s")):
+            DOC_FORMATS[_h + _SYM[_a] + _h + _SYM[_b] + _e] = "%.4e"
+KNOWN_TITLES = sorted(DOC_FORMATS)
 
 finite = st.floats(allow_nan=False, allow_infinity=False, width=64)
 
@@ -106,8 +130,7 @@ def colfiles(draw):
 
 
 def _ints():
-    from ImageD11 import columnfile
-    return set(columnfile.INTS)
+    return set(DOC_INTS)
 
 
 def fmt_tolerance(fmt, v):
@@ -175,7 +198,7 @@ def check_colfile_text(case, rec=None):
                           (r1.nrows, r1.ncols, len(arrays[titles[0]]), len(titles)), route="text"))
     else:
         for t in titles:
-            fmt = columnfile.FORMATS.get(t, "%f")
+            fmt = DOC_FORMATS.get(t, "%f")
             got = np.asarray(r1.getcolumn(t), float)
             for i, (w, g) in enumerate(zip(arrays[t], got)):
                 tol = fmt_tolerance(fmt, float(w))
@@ -206,7 +229,7 @@ def check_colfile_text(case, rec=None):
                     for t in titles:
                         a = np.asarray(r1.getcolumn(t), float)
                         b = np.asarray(r2.getcolumn(t), float)
-                        fmt = columnfile.FORMATS.get(t, "%f")
+                        fmt = DOC_FORMATS.get(t, "%f")
                         # values already rounded to the format are reproduced up to one more rounding
                         tolv = np.array([fmt_tolerance(fmt, float(x)) for x in a])
                         if a.shape != b.shape or (np.abs(a - b) > tolv).any():
@@ -219,9 +242,9 @@ def check_colfile_text(case, rec=None):
                         fails.append(fail("cycle", "parameter %r changes on the second cycle" % k, route="text"))
     rm(f1, f2)
     if rec is not None:
-        unknown = [t for t in titles if t not in columnfile.FORMATS]
-        expo = [t for t in titles if columnfile.FORMATS.get(t, "").endswith("e") or
-                columnfile.FORMATS.get(t, "") == "%.12f"]
+        unknown = [t for t in titles if t not in DOC_FORMATS]
+        expo = [t for t in titles if DOC_FORMATS.get(t, "").endswith("e") or
+                DOC_FORMATS.get(t, "") == "%.12f"]
         allv = np.abs(np.concatenate([arrays[t] for t in titles]))
         allv = allv[allv > 0]
         decades = np.log10(allv.max() / allv.min()) if len(allv) else 0
